@@ -56,7 +56,7 @@ Definition e_instr (i : G.instr) : option qinstr :=
 Definition grel (ms : G.mst) (s : qstate) : Prop :=
   (forall r, G.m_reg ms r = rd (q_st s) (e_reg r)) /\
   (forall a, G.m_arr ms a = find Z.eqb (Z.of_nat a) (arrs (q_st s))) /\
-  (forall k, G.m_alloc ms k = match nth_error (um (q_st s)) k with Some b => b | None => false end) /\
+  (forall k, G.m_alloc ms k = match nth_error (um (q_st s)) k with Some (Some _) => true | _ => false end) /\
   G.m_script ms = q_script s.
 
 (* Target names qubit INSTANCES in its trace (a fresh number per init), SemQ
@@ -134,13 +134,15 @@ Proof.
   destruct (Nat.ltb k (List.length t)); reflexivity.
 Qed.
 
-Lemma alloc_set : forall (Al : nat -> bool) (u : list bool) n b,
-  (forall k, Al k = match nth_error u k with Some x => x | None => false end) ->
+Definition is_some {A} (o : option A) : bool := match o with Some _ => true | None => false end.
+
+Lemma alloc_set : forall (Al : nat -> bool) (u : list (option Z)) n x,
+  (forall k, Al k = match nth_error u k with Some (Some _) => true | _ => false end) ->
   (n < List.length u)%nat ->
-  forall k, G.upd_nat Al n b k = match nth_error (sset n b u) k with Some x => x | None => false end.
+  forall k, G.upd_nat Al n (is_some x) k = match nth_error (sset n x u) k with Some (Some _) => true | _ => false end.
 Proof.
-  intros Al u n b H Hn k. unfold G.upd_nat. destruct (Nat.eqb k n) eqn:E.
-  - apply Nat.eqb_eq in E. subst. rewrite nth_error_sset_same by exact Hn. reflexivity.
+  intros Al u n x H Hn k. unfold G.upd_nat. destruct (Nat.eqb k n) eqn:E.
+  - apply Nat.eqb_eq in E. subst. rewrite nth_error_sset_same by exact Hn. destruct x; reflexivity.
   - apply Nat.eqb_neq in E. rewrite nth_error_sset_other by assumption. apply H.
 Qed.
 
@@ -292,26 +294,29 @@ Section SdkQuantum.
   Lemma sb_qalloc : forall r,
     qstep (QC (IQalloc (e_reg r))) s pc <> QStop (Unspec pc) ->
     qstep (QC (IQalloc (e_reg r))) s pc <> QStop (Fault FUnitRange pc) ->
+    qstep (QC (IQalloc (e_reg r))) s pc <> QStop (Fault FBook pc) ->
     ok_bridge ms s pc (G.exec_instr (G.IQ G.QAlloc r) ms) (qstep (QC (IQalloc (e_reg r))) s pc).
   Proof.
-    intros r H Hcap. apply qc_not_open in H. apply qc_not_fault in Hcap.
+    intros r H Hcap Hbk. apply qc_not_open in H. apply qc_not_fault in Hcap. apply qc_not_fault in Hbk.
     cbn [qstep G.exec_instr]. pre. rewrite Rr.
     destruct (rd (q_st s) (e_reg r)) as [q|] eqn:Eq; [|sfault]. cbn [G.zidx].
     destruct (q <? 0) eqn:En; [congruence|].
     destruct (Zlen (um (q_st s)) <=? q) eqn:El; [congruence|].
     destruct (nth_error_in_range _ (um (q_st s)) q) as [b Hb]; try lia.
-    rewrite Rl, Hb. destruct b; [sfault|].
+    rewrite Rl, Hb. rewrite Hb in H, Hcap, Hbk. destruct b as [p0|]; [sfault|].
+    destruct (least_unused (used (q_st s))) as [p|]; [|congruence].
     cbn [ok_bridge]. eexists; split; [reflexivity|]. split.
     - split; [exact Rr|]. split; [exact Ra|]. split; [|exact Rs].
-      apply alloc_set; [exact Rl|]. unfold Zlen in El. lia.
+      apply (alloc_set _ _ _ (Some p)); [exact Rl|]. unfold Zlen in El. lia.
     - cbn [events_of]. rewrite Eq. exists [QEvAlloc q]. split; reflexivity.
   Qed.
 
   Lemma sb_qfree : forall r,
     qstep (QC (IQfree (e_reg r))) s pc <> QStop (Unspec pc) ->
+    qstep (QC (IQfree (e_reg r))) s pc <> QStop (Fault FBook pc) ->
     ok_bridge ms s pc (G.exec_instr (G.IQ G.QFree r) ms) (qstep (QC (IQfree (e_reg r))) s pc).
   Proof.
-    intros r H. apply qc_not_open in H.
+    intros r H Hbk. apply qc_not_open in H. apply qc_not_fault in Hbk.
     cbn [qstep G.exec_instr]. unfold G.qid. pre. rewrite Rr.
     destruct (rd (q_st s) (e_reg r)) as [q|] eqn:Eq; [|sfault]. cbn [G.zidx].
     destruct (q <? 0) eqn:En; [congruence|].
@@ -320,10 +325,11 @@ Section SdkQuantum.
     - assert (Hn : nth_error (um (q_st s)) (Z.to_nat q) = None) by (apply nth_error_None; unfold Zlen in El; lia).
       rewrite Hn. sfault.
     - destruct (nth_error_in_range _ (um (q_st s)) q) as [b Hb]; try lia.
-      rewrite Hb. destruct b; [|sfault].
+      rewrite Hb. rewrite Hb in H, Hbk. destruct b as [p0|]; [|sfault].
+      destruct (set_mem p0 (used (q_st s))); [|congruence].
       cbn [ok_bridge]. eexists; split; [reflexivity|]. split.
       + split; [exact Rr|]. split; [exact Ra|]. split; [|exact Rs].
-        apply alloc_set; [exact Rl|]. unfold Zlen in El. lia.
+        apply (alloc_set _ _ _ None); [exact Rl|]. unfold Zlen in El. lia.
       + cbn [events_of]. rewrite Eq. exists [QEvFree q]. split; reflexivity.
   Qed.
 
@@ -441,7 +447,8 @@ Definition qregs (i : G.instr) : list G.reg :=
 
 (* THE BRIDGE for C05/C14, PARTIAL: per instruction (the fragment listed at the
    top of this file).  From related states, where the common semantics is not
-   open and does not report "virtual id outside the unit module":
+   open and reports neither "virtual id outside the unit module" nor
+   inconsistent physical-qubit bookkeeping (FBook):
    - if Target executes the instruction, SemQ makes the corresponding step (pc+1),
      the states stay related and the new trace events correspond through the
      instance map;
@@ -452,9 +459,10 @@ Theorem sdk_instr_bridge_partial : forall i qi ms s pc,
   e_instr i = Some qi -> grel ms s ->
   qstep qi s pc <> QStop (Unspec pc) ->
   qstep qi s pc <> QStop (Fault FUnitRange pc) ->
+  qstep qi s pc <> QStop (Fault FBook pc) ->
   gate_bridge ms s pc (qregs i) (G.exec_instr i ms) (qstep qi s pc).
 Proof.
-  intros i qi ms s pc He R H Hcap.
+  intros i qi ms s pc He R H Hcap Hbk.
   destruct i as [r z|o r|ax r n d|t r1 r2|q m|v a ix|r a ix|d x y|d x y m|n a|a|r|k];
     cbn [e_instr] in He; try discriminate.
   - inversion He; subst qi. apply ok_to_gate. apply sb_set; assumption.
